@@ -10,7 +10,7 @@ import glob
 import importlib.util
 import os
 
-HOOK_COMMITS = ["8f697da"]
+HOOK_COMMITS = ["8f697da", "2a63934"]
 
 # reason shown in MANIFEST.not_applicable for properties whose check is not claimed (yet)
 NOT_YET = {}
